@@ -13,6 +13,7 @@ ANY order and batching of events, what then could only be said under FIFO delive
 -/
 import EkwVerif.Lemmas.CtrlFinal
 import EkwVerif.Lemmas.SchedIdle
+import EkwVerif.Lemmas.SchedTermC
 
 namespace EkwVerif.Ctrl
 
@@ -75,7 +76,7 @@ between this and "every run returns the requested outputs". -/
 theorem c01_run_delivers (f : Sem) (j : Job) (cl : Cluster) (cm : Comps) (wf : WF j cl) (wfc : WFC j cm)
     (feas : Feasible j cl) (x : SysX) (hr : ReachableX f j cl cm x) :
     x.sys.err = none ∧ x.sch.schErr = none ∧ x.sys.rounds ≤ roundBound j ∧
-    (x.sys.phase = .waiting → x.sys.env.pending ≠ [] ∨ ∃ es e', envStep f j x.sys.env es = some e') ∧
+    (x.sys.phase = .waiting → x.sys.env.pending ≠ [] ∨ ∃ es e', envStepP f j x.sys.env es = some e') ∧
     (x.sys.phase = .finished →
       (∀ ds, ds ∈ j.ext → ∃ v, x.sys.ctl.outputs ds = some v ∧ den f j ds = some v) ∧
       (∀ t, t < j.tasks.length → x.sys.env.ran t = true ∧ x.sys.env.dispatchedE t = 1 ∧ x.sys.ctl.doneC t = true)) := by
@@ -95,10 +96,111 @@ theorem c01_run_delivers (f : Sem) (j : Job) (cl : Cluster) (cm : Comps) (wf : W
       · exact absurd he hX.hA.h4.no_err_pop
       · exact absurd he hX.hA.h2.no_err_tracker
       · exact absurd he hX.hA.h2.no_err_ongoing
-  refine ⟨herr, hX.hS.no_schErr, sB_rounds_bounded f j cl cm wf wfc feas x hr,
-    fun hw => sI_no_idle_wait f j cl cm wf wfc feas x hr hw, ?_⟩
+  refine ⟨herr, hX.hS.no_schErr, sB_rounds_bounded f j cl cm wf wfc feas x hr, ?_, ?_⟩
+  · intro hw
+    rcases sI_no_idle_wait f j cl cm wf wfc feas x hr hw with h | ⟨es, e', he⟩
+    · exact Or.inl h
+    · exact Or.inr ⟨es, e', by rw [envStepP_eq f j x.sys.env es hX.hA.h1.no_trim]; exact he⟩
   intro hfin
   have := c01_return_complete f j cl wf x.sys hR hfin
   exact ⟨this.2, this.1⟩
+
+/-- **Every requested dataset is delivered, with the sequential value** (audit C01 #1: clause (a) without the
+hypothesis `phase = finished`). From every reachable state of the extended system — any job, any feasible cluster,
+any admissible choice of the heuristics, any order and batching of events, any interleaving of executor steps — it is
+INEVITABLE (`Inev`: on every maximal execution, after finitely many steps) that `run` returns with every requested
+dataset delivered and equal to sequential evaluation, and every task run exactly once. Termination is a theorem
+(`sT_inevitable`: a lexicographic measure decreases at every step of the whole system and no reachable state but
+`finished` is terminal); no fairness beyond "an enabled step is eventually taken" is used. -/
+theorem c01_delivers (f : Sem) (j : Job) (cl : Cluster) (cm : Comps) (wf : WF j cl) (wfc : WFC j cm)
+    (feas : Feasible j cl) (x : SysX) (hr : ReachableX f j cl cm x) :
+    Inev f j cl cm (fun y => y.sys.phase = .finished ∧
+      (∀ ds, ds ∈ j.ext → ∃ v, y.sys.ctl.outputs ds = some v ∧ den f j ds = some v) ∧
+      (∀ t, t < j.tasks.length → y.sys.env.ran t = true ∧ y.sys.env.dispatchedE t = 1 ∧ y.sys.ctl.doneC t = true)) x := by
+  refine (sT_inevitable f j cl cm wf wfc feas x hr).mono ?_ hr
+  intro y hy hfin
+  have hR := sL_reachableX_base f j cl cm y hy
+  have := c01_return_complete f j cl wf y.sys hR hfin
+  exact ⟨hfin, this.2, this.1⟩
+
+/-- in particular from the initial state: every maximal execution of `run` delivers -/
+theorem c01_run_returns_outputs (f : Sem) (j : Job) (cl : Cluster) (cm : Comps) (wf : WF j cl) (wfc : WFC j cm)
+    (feas : Feasible j cl) (σ : Nat → SysX) (h0 : σ 0 = SysX.init j cl cm)
+    (hmax : ∀ n, (∃ st, stepX f j cl cm (σ n) st = some (σ (n + 1))) ∨
+      ((∀ st, stepX f j cl cm (σ n) st = none) ∧ σ (n + 1) = σ n)) :
+    ∃ n, ∀ ds, ds ∈ j.ext → ∃ v, (σ n).sys.ctl.outputs ds = some v ∧ den f j ds = some v := by
+  have hreach : ∀ n, ReachableX f j cl cm (σ n) := by
+    intro n
+    induction n with
+    | zero => rw [h0]; exact ReachableX.init
+    | succ n ih =>
+      rcases hmax n with ⟨st, hs⟩ | ⟨_, he⟩
+      · exact ReachableX.step _ _ st ih hs
+      · rw [he]; exact ih
+  obtain ⟨n, hn⟩ := sT_maximal_finishes f j cl cm wf wfc feas σ h0 hmax
+  exact ⟨n, c01_outputs_sequential f j cl wf (σ n).sys (sL_reachableX_base f j cl cm _ (hreach n)) hn⟩
+
+/-! non-vacuity (audit C01 #5): a reachable FINISHED state with a non-empty set of requested outputs — one task whose
+output is requested, on one worker: dispatched, run, announced, fetched, payload delivered, loop exit with the value of
+sequential evaluation — and a two-task chain on two hosts with a transfer -/
+section
+def exJobF : Job := { tasks := [{ nOut := 1, gpu := false, inputs := [] }], ext := [⟨0, 0⟩] }
+def exClF : Cluster := { workers := [(⟨0, 0⟩, false)] }
+def exSemF : Sem := fun t k args => s!"t{t}.{k}({args})"
+def exStepsF : List Step :=
+  [.enter, .assign ⟨⟨0, 0⟩, 0, []⟩, .endAssign, .plan1, .endPlan, .endFlushF, .endFlush,
+   .env (.run ⟨0, 0⟩ 0), .recv [.pubW ⟨0, 0⟩ ⟨0, 0⟩], .notify1, .endNotify,
+   .enter, .endAssign, .endPlan, .flushF1, .endFlushF, .endFlush,
+   .env (.io 0), .recv [.payload ⟨0, 0⟩ "t0.0([])"], .notify1, .endNotify, .enter]
+example : ((runSteps exSemF exJobF exClF (Sys.init exJobF exClF) exStepsF).map
+    (fun s => (s.phase, s.ctl.outputs ⟨0, 0⟩, den exSemF exJobF ⟨0, 0⟩))) =
+    some (.finished, some "t0.0([])", some "t0.0([])") := by
+  decide
+example : ((runSteps exSemF exJobF exClF (Sys.init exJobF exClF) exStepsF).map
+    (fun s => (s.env.viol, s.err, s.shutdowns, s.env.ran 0, s.env.dispatchedE 0))) = some ([], none, 1, true, 1) := by
+  decide
+example : exJobF.ext ≠ [] := by decide
+/-- the finished state above is reachable, so the hypotheses of `c01_outputs_sequential` / `c01_return_complete` are satisfiable -/
+example : ∃ s, Reachable exSemF exJobF exClF s ∧ s.phase = .finished ∧ s.ctl.outputs ⟨0, 0⟩ = some "t0.0([])" := by
+  have key : ∀ (l : List Step) (s s' : Sys), Reachable exSemF exJobF exClF s →
+      runSteps exSemF exJobF exClF s l = some s' → Reachable exSemF exJobF exClF s' := by
+    intro l
+    induction l with
+    | nil => intro s s' hr h; simp only [runSteps, Option.some.injEq] at h; subst h; exact hr
+    | cons st l ih =>
+      intro s s' hr h
+      simp only [runSteps] at h
+      cases hst : step exSemF exJobF exClF s st with
+      | none => simp [hst] at h
+      | some s1 => simp only [hst] at h; exact ih s1 s' (Reachable.step s s1 st hr hst) h
+  cases hrun : runSteps exSemF exJobF exClF (Sys.init exJobF exClF) exStepsF with
+  | none =>
+    have : (runSteps exSemF exJobF exClF (Sys.init exJobF exClF) exStepsF).isSome = true := by decide
+    rw [hrun] at this; cases this
+  | some s =>
+    have h1 : ((runSteps exSemF exJobF exClF (Sys.init exJobF exClF) exStepsF).map
+        (fun s => (s.phase, s.ctl.outputs ⟨0, 0⟩))) = some (.finished, some "t0.0([])") := by decide
+    rw [hrun] at h1
+    simp only [Option.map_some, Option.some.injEq, Prod.mk.injEq] at h1
+    exact ⟨s, key exStepsF _ _ Reachable.init hrun, h1.1, h1.2⟩
+/-- two hosts: `t1 ← t0.0` runs on the other host after a transfer; the notice of `t1`'s output is processed BEFORE the
+late announcement of the transfer; `t0.0` is purged on both hosts, `t1.0` fetched; finished with the sequential value -/
+def exJobG : Job := { tasks := [{ nOut := 1, gpu := false, inputs := [] }, { nOut := 1, gpu := false, inputs := [⟨0, 0⟩] }], ext := [⟨1, 0⟩] }
+def exClG : Cluster := { workers := [(⟨0, 0⟩, false), (⟨1, 0⟩, false)] }
+def exStepsG : List Step :=
+  [.enter, .assign ⟨⟨0, 0⟩, 0, []⟩, .endAssign, .plan1, .endPlan, .endFlushF, .endFlush,
+   .env (.run ⟨0, 0⟩ 0), .recv [.pubW ⟨0, 0⟩ ⟨0, 0⟩], .notify1, .endNotify,
+   .enter, .assign ⟨⟨1, 0⟩, 1, [(⟨0, 0⟩, 0)]⟩, .endAssign, .plan1, .endPlan, .endFlushF, .endFlush,
+   .env (.io 0), .env (.run ⟨1, 0⟩ 1), .recv [.pubW ⟨1, 0⟩ ⟨1, 0⟩, .pubT 1 ⟨0, 0⟩], .notify1, .notify1, .endNotify,
+   .enter, .endAssign, .endPlan, .flushF1, .endFlushF, .flushP1, .endFlush,
+   .env (.io 0), .recv [.payload ⟨1, 0⟩ "t1.0([t0.0([])])"], .notify1, .endNotify, .enter]
+example : ((runSteps exSemF exJobG exClG (Sys.init exJobG exClG) exStepsG).map
+    (fun s => (s.phase, s.ctl.outputs ⟨1, 0⟩, den exSemF exJobG ⟨1, 0⟩))) =
+    some (.finished, some "t1.0([t0.0([])])", some "t1.0([t0.0([])])") := by
+  decide
+example : ((runSteps exSemF exJobG exClG (Sys.init exJobG exClG) exStepsG).map
+    (fun s => (s.env.viol, s.err, s.env.purged))) = some ([], none, [(0, ⟨0, 0⟩), (1, ⟨0, 0⟩)]) := by
+  decide
+end
 
 end EkwVerif.Ctrl
